@@ -685,7 +685,7 @@ func genS5SValid(r *common.Rng) Case {
 		// the real client's own bytes
 		s, b, err := clientStream(in, c.Auth)
 		if err != nil {
-			panic(err)
+			return Case{Kind: "mkaddr", Addr: in.Addr, Probe: err.Error()}
 		}
 		stream, bounds = s, b
 	} else {
@@ -851,12 +851,12 @@ func genNone(r *common.Rng) Case {
 	early := genEarly(r)
 	target, err := in.Addr.connAddr()
 	if err != nil {
-		panic(err)
+		return Case{Kind: "mkaddr", Addr: in.Addr, Probe: err.Error()}
 	}
 	cc := &captureClient{}
 	cl := (&ssnone.StreamClientConfig{Name: "n", InnerClient: cc, Addr: conn.AddrFromIPAndPort(netip.AddrFrom4([4]byte{127, 0, 0, 1}), 2)}).NewStreamClient()
 	if _, err := cl.DialStream(bg(), target, payload); err != nil {
-		panic(err)
+		return Case{Kind: "mkaddr", Addr: in.Addr, Probe: err.Error()}
 	}
 	s := append([]byte(nil), cc.payload...)
 	hl := len(s) - len(payload)
